@@ -30,7 +30,9 @@ from .zoneinfo import timezone, in_timezone
 LOG = logging.getLogger(__name__)
 
 # All grids start with the version string.
-VERSION_RE = re.compile(r'^ver:"(([^"\\]|\\[\\"bfnrt$])+)"')
+# The version is a string literal like any other: every escape is allowed.
+VERSION_RE = re.compile(
+    r'^ver:"(([^"\\]|\\[\\"bfnrt$]|\\[uU][0-9a-fA-F]{4})+)"')
 NEWLINE_RE = re.compile(r'\r?\n')
 
 # Character number regex; for exceptions
@@ -538,7 +540,7 @@ class _NestedGridBody(pp.Token):
             raise pp.ParseException(instring, loc,
                                     'Expected version header', self)
         try:
-            version = Version(match.group(1))
+            version = Version(_unescape(match.group(1)))
         except ValueError as exc:
             raise pp.ParseException(instring, loc, str(exc), self)
         return hs_grid[version]._parse(instring, loc, doActions)
@@ -684,7 +686,7 @@ def parse_grid(grid_data, parseAll=True):
             raise ZincParseException(
                 'Could not determine version from %r' % NEWLINE_RE.split(grid_data)[0],
                 grid_data, 1, 1)
-        version = Version(ver_match.group(1))
+        version = Version(_unescape(ver_match.group(1)))
 
         # Now parse the grid of the grid accordingly
         # parseWithTabs: a TAB is a character of the text like any other
